@@ -94,6 +94,22 @@ func witness(id int) (wuCase, bool) {
 			c.Ops = append(c.Ops, wreq{Ms: t + 100, B: 1})
 		}
 		return c, true
+	case 9: // +Inf still passes flow.IsValidRule: the effective threshold is MaxFloat64 (finite), a configured "unlimited"
+		c := wuCase{ID: id, Name: "Inf-threshold-unlimited", T: fl(math.Inf(1)), Period: 10, CF: 3}
+		for i := 0; i < 30; i++ {
+			c.Ops = append(c.Ops, wreq{Ms: t + 100, B: 1})
+		}
+		return c, true
+	case 10, 11: // warm resource, then idle for 2^32 ms + 1.5 s (49.7 days; the second-aligned difference is 2^32+704 ms) / 3*2^31 ms + 1.2 s: must be cold again
+		gap := uint64(1)<<32 + 1500
+		name := "idle-2^32ms-after-warm"
+		if id-wuBase == 11 {
+			gap, name = 3*(uint64(1)<<31)+1200, "idle-3*2^31ms-after-warm"
+		}
+		c := wuCase{ID: id, Name: name, T: 12, Period: 3, CF: 3}
+		c.Ops = steady(c.Ops, t+10, 12, 14, 1)
+		c.Ops = steady(c.Ops, t+10+11000+gap, 2, 14, 1)
+		return c, true
 	case 7: // threshold 0 with a warm-up rule must block everything (was NaN: everything admitted)
 		c := wuCase{ID: id, Name: "threshold-0", T: 0, Period: 5, CF: 3}
 		c.Ops = steady(c.Ops, t+10, 5, 4, 1)
@@ -133,6 +149,7 @@ func genWu(r *rng.R, id int) wuCase {
 	T := float64(c.T)
 	now := caseBase(id) + uint64(r.Range(0, 5000))
 	phases := 2 + r.Intn(4)
+	usedBig := false
 	for p := 0; p < phases && len(c.Ops) < 220; p++ {
 		switch r.Intn(7) {
 		case 0: // burst at one instant
@@ -154,7 +171,12 @@ func genWu(r *rng.R, id int) wuCase {
 			c.Ops = steady(c.Ops, now, secs, per, 1)
 			now += uint64(secs) * 1000
 		case 4: // idle gap
-			now += uint64(r.PickI(1500, 3000, 10000, 60000, 600000, 3600000))
+			if isBigWu(id) && !usedBig { // one idle gap around a multiple of 2^31 / 2^32 ms (24.9 / 49.7 days)
+				usedBig = true
+				now += uint64(r.PickI(1<<32, 1<<32+700, 1<<32+3000, 2<<32+1500, 3<<32, 1<<31, 1<<31+700, 3<<31+1500, 1<<32-800))
+			} else {
+				now += uint64(r.PickI(1500, 3000, 10000, 60000, 600000, 3600000))
+			}
 		case 5: // moderate demand below the cold rate
 			secs := 2 + r.Intn(8)
 			c.Ops = steady(c.Ops, now, secs, 1+r.Intn(3), uint32(r.PickI(1, 1, 2)))
@@ -212,7 +234,8 @@ func runWu(c wuCase, clk *vclock.Clock) wuObs {
 const (
 	sigD9      = "warmup-empty-token-range-nan-threshold-admits-all" // repaired in /repo; not listed any more
 	sigNoCold  = "warmup-empty-token-range-no-cold-phase"
-	sigNaNThr  = "non-finite-threshold-accepted-by-isvalidrule"
+	sigNaNThr  = "nan-threshold-accepted-by-isvalidrule"      // repaired in /repo 1e1f6ae; not listed: a regression is a violation
+	sigInfThr  = "infinite-threshold-not-finite-allowed"        // not listed: +Inf gives MaxFloat64 today
 	sigD10     = "warmup-threshold-below-coldfactor-starved"
 	sigD10eq   = "warmup-threshold-equals-coldfactor-rounding-starved"
 	sigStuck   = "warmup-stuck-at-warning-line-never-cools"
@@ -241,7 +264,11 @@ func monitorWu(c wuCase, o wuObs, rep *emit.Report) (nontrivial bool) {
 		// the rule is in force (runWu checks it): IsValidRule accepted a non-finite threshold
 		for i := range c.Ops {
 			if a := float64(o.Allowed[i]); math.IsNaN(a) || math.IsInf(a, 0) {
-				fail(i, "C11_wu_finite_nonneg", sigNaNThr, "threshold=%v passed flow.IsValidRule; allowed=%v admitted=%v", T, a, o.Adm[i])
+				sig := sigNaNThr
+				if math.IsInf(T, 0) {
+					sig = sigInfThr
+				}
+				fail(i, "C11_wu_finite_nonneg", sig, "threshold=%v passed flow.IsValidRule; allowed=%v admitted=%v", T, a, o.Adm[i])
 				break
 			}
 		}
